@@ -35,6 +35,8 @@ type Scenario struct {
 	// KeyAlgo (harness handler): the key-pair algorithm of its agent keys, 0 = the package default, otherwise
 	// key.PublicKeyAlgo + 1 (RSA2048, RSA4096, P-256, P-384, P-521, Ed25519)
 	KeyAlgo int `json:",omitempty"`
+	// NilParam: Run is called without request parameters (a nil pointer)
+	NilParam bool `json:",omitempty"`
 }
 
 type Fault struct {
@@ -160,6 +162,9 @@ func runOnce(s Scenario, f Fault) (res runResult, infra error) {
 		c2, cancel := context.WithTimeout(ctx, 60*time.Second)
 		defer cancel()
 		ctx = c2
+	}
+	if s.NilParam {
+		param = nil
 	}
 	res.crash = vh.Catch(func() { res.err = gensign.Run(ctx, param, handlers, ca) })
 	res.frames = p.Frames()
@@ -355,6 +360,51 @@ func TestC04Faults(t *testing.T) {
 			}
 			return s
 		}, Exec: exec})
+}
+
+// TestC04NilParams: Run called without request parameters. Whatever then goes wrong - the handlers or Run
+// itself dereference the missing parameters, and on top of that a handler, the CA or the agent fails or
+// panics - comes back as a typed error; nothing escapes Run.
+func TestC04NilParams(t *testing.T) {
+	var cases []Scenario
+	for _, real := range []bool{true, false} {
+		for _, rf := range []bool{false, true} {
+			sc := Scenario{Real: real, NCerts: 1, RejectFirst: rf, NilParam: true, Ctx: "cancel"}
+			if !real {
+				sc.NKeys, sc.NReqs = 1, 2
+			}
+			cases = append(cases, sc)
+		}
+	}
+	vh.Enumerate(t, vh.Spec[Scenario]{Property: "C04", Name: "TestC04NilParams", Exhaustive: true, Journal: true,
+		Rule: "gensign.Run with a nil parameter pointer, real or harness handler, with or without a rejecting handler in front: fault-free, and with a panic in each of Name / Authenticate / Generate / CSRs / AddCertsToAgent, a CA error or panic, an agent failure or closed connection at each of the first 8 operations (each case journaled first). Oracle: nothing escapes Run (no panic reaches the caller, the process survives) and every error returned is of the package's typed kind",
+		Exec: func(s Scenario) (vh.Outcome, error) {
+			out := vh.Outcome{NonTrivial: true}
+			faults := []Fault{{Where: "none"}, {"ca", 0, "error"}, {"ca", 0, "panic"}}
+			for _, k := range []string{"name", "authenticate", "generate", "csrs", "addcerts"} {
+				faults = append(faults, Fault{"handler", 0, k})
+			}
+			for i := 0; i < 8; i++ {
+				faults = append(faults, Fault{"agent", i, "fail"}, Fault{"agent", i, "close"})
+			}
+			for _, f := range faults {
+				res, infra := runOnce(s, f)
+				if infra != nil {
+					continue
+				}
+				desc := fmt.Sprintf("scenario %+v, fault %+v", s, f)
+				if res.crash != nil {
+					return out, vh.Errf("%s: a panic escaped gensign.Run: %v", desc, res.crash)
+				}
+				if res.err == nil {
+					continue // whether a run without parameters may complete is not this property's subject
+				}
+				if vh.ErrKind(res.err) == "" || vh.ErrKind(res.err) == "untyped" {
+					return out, vh.Errf("%s: the error is not of the package's typed kind: %T %v", desc, res.err, res.err)
+				}
+			}
+			return out, nil
+		}}, cases)
 }
 
 // TestC04AllScenarios enumerates a fixed scenario grid completely.
